@@ -202,6 +202,18 @@ func init() {
 		Outside:     []string{"more than 3 goroutines / 2 operations each, capacities 3-4", "script-level spawn closures sharing a frame", "seeded stress under the race detector (different technique family)"},
 	})
 
+	reg(Check{
+		ID:  "C10",
+		Pkg: "verif/harness/c10",
+		Runs: []RunDef{
+			{Fn: "H_two", Tier: "quickonly", Sched: true, Preempt: 2, Reach: []string{"end"}},
+			{Fn: "H_two", Tier: "thorough", Sched: true, Preempt: 4, Reach: []string{"end"}},
+		},
+		Rule:        rule + "; two goroutines issue one call each out of {AddClass, AddFunc, AddInterface, GetClass, GetFunc, SetConstant, GetConstant, EnsureGlobalZVal} on names from a 2-name pool (all 64 x 4 combinations); the five registry maps are marked shared, so every map access and every lock operation is a schedule point and all interleavings within the preemption bound are explored; obligations: no happens-before race on a registry map (vector clocks over RWMutex edges), results equal those of one of the 2 sequential orders run on a fresh VM in the same path, a duplicate name accepted at most once",
+		Assumptions: []string{"sync.RWMutex modelled at contract level (readers/writer counts, unlock->lock and RUnlock->Lock happens-before edges)", "bounded: 2 goroutines x 1 call, preemption bound 2 (quick) / 4 (thorough)"},
+		Outside:     []string{"10^2-10^4 calls, 3-16 goroutines, GOMAXPROCS effects (stress testing is a different technique family)", "LoadPkg autoloading from files, call-depth counters"},
+	})
+
 	c17 := func(fn string, p map[string]int) RunDef {
 		return RunDef{Fn: fn, Params: p, Tier: "quick", Reach: []string{"end"}}
 	}
